@@ -147,7 +147,9 @@ CHECKS = {
          "file:// archive only; the host fingerprint is a whitelisted file read by fingerprintScript and by the build scripts of "
          "fingerprinted recipes; non-relocatable packages record $PWD. Packages consumed through tools record neither (Bob documents "
          "that host dependencies of tools do not propagate) and directories of weak tools are recorded by name only. Live-build-id "
-         "prediction is exercised only through deterministic checkout scripts (no git/url SCM here).",
+         "prediction is exercised through deterministic checkout scripts and, in a quarter of the cases (git layer), through a git "
+         "SCM following a branch/tag/commit in 2-3 workspaces that share an archive and an upstream repository. Only packages that the "
+         "downloading invocation visits are judged: dependencies of a downloaded package are neither materialised nor refreshed by Bob.",
          "3 (C07)", "E1 bobproc, E2 projgen, E3 scripts, E4 treecanon"),
  "C12": ("exploration",
          "Hypothesis (source universe, SCM specification, history of recipe edits / upstream events / user actions / Bob commands) generation; marker oracle for user work (every file and commit marker must survive in place or in the attic), convergence oracle untouched workspace == fresh checkout elsewhere (tree canonicaliser)",
